@@ -83,6 +83,7 @@ var rxCurly = []string{`[0-9]+`, `[a-z]+`, `[A-Z][A-Z]`, `\d{1,3}`, `(?:foo|bar)
 var rxJsr = []string{`[0-9]+`, `[a-z]+`, `[A-Z][A-Z]`, `\d{1,3}`, `(?:foo|bar)`, `ab`}
 var sufPool = []string{".foo", "_x", ".json"}
 var verbPool = []string{":get", ":cancel", ":x"}
+
 // the tail of the pool holds names that contain / are contained in other names (Allow lists are sets of whole names)
 var methodPool = []string{"GET", "POST", "PUT", "PATCH", "DELETE", "HEAD", "OPTIONS", "X-CUSTOM", "UNLOCK", "LOCK", "GETALL", "PU"}
 var mimePool = []string{"application/json", "application/xml", "application/zip", "application/octet-stream", "*/*", "application/vnd.x+json", "text/plain"}
@@ -99,12 +100,12 @@ var rxNear = map[string][]string{
 var valPool = []string{"x", "12", "ab", "foo", "AB", "é", "a.b", "x:get", "a", "b", "users", "x.foo", "q_x", "{v}", "a:b", "*"}
 
 type tplTok struct {
-	kind  int // 0 lit 1 var 2 rx 3 suffix 4 tail
-	text  string
-	name  string
-	re    string
-	suf   string
-	verb  string
+	kind int // 0 lit 1 var 2 rx 3 suffix 4 tail
+	text string
+	name string
+	re   string
+	suf  string
+	verb string
 }
 
 func (t tplTok) render() string {
